@@ -4,7 +4,7 @@ from .. import build, harness
 
 
 def run_rc_property(pid, hname, modes, tier, seed, per_quick, per_thorough, nproc=16, extra_jobs=(), known_excl=(), max_size=100,
-                    exhaustive=False, note=None):
+                    exhaustive=False, note=None, noshrink=False):
     os.environ["VERIF_TIER_RUN"] = tier
     harness.ensure([hname])
     known = {e["id"]: e for e in harness.known_excludes(pid)}
@@ -14,7 +14,7 @@ def run_rc_property(pid, hname, modes, tier, seed, per_quick, per_thorough, npro
     for w in range(nproc):
         mode = modes[w % len(modes)]
         jobs.append(dict(name=hname, args=[mode], exclude=excl,
-                         rc_params="seed=%d max_success=%d max_size=%d" % (seed * 1000 + w + 1, per, max_size)))
+                         rc_params="seed=%d max_success=%d max_size=%d%s" % (seed * 1000 + w + 1, per, max_size, " noshrink=1" if noshrink else "")))
     res = harness.run_many(jobs)
     ev, nt, classes, samples = harness.merge_stats(res)
     violations = []
